@@ -182,6 +182,11 @@ def rand_small_matrix(r, singular_ok=True):
     return rand_frame(r)
 
 
+def singular_by_construction(M):
+    rows = [M[0:3], M[4:7], M[8:11]]
+    return any(all(x == 0 for x in rw) for rw in rows) or rows[0] == rows[1] or rows[0] == rows[2] or rows[1] == rows[2]
+
+
 # ---------------------------------------------------------------------------------------------
 # navis objects
 # ---------------------------------------------------------------------------------------------
@@ -475,7 +480,7 @@ def gen_registry(r, thorough=False):
             alias_pairs.append((a, b))
         # split into components sometimes (disconnected templates)
         comp = [0] * n
-        if n >= 3 and r.random() < 0.35:
+        if n >= 3 and r.random() < 0.2:
             comp = [r.randint(0, 1) for _ in range(n)]
         shape = r.choice(['random', 'random', 'chain', 'cycle', 'star', 'dense'])
         pairs = []
@@ -514,7 +519,7 @@ def gen_registry(r, thorough=False):
                 ok = False
                 break
             regs.append(dict(s=a, t=b, tk=tk, kind='bridging', w=fs(r.choice([1, 1, 1, 2, 3, 5, F(1, 2), F(3, 2)])), mat=[fs(x) for x in E]))
-        if not ok:
+        if not ok or (not regs and r.random() < 0.85):
             continue
         # mirror registrations must be ignored by the bridging graph
         if r.random() < 0.3:
@@ -567,6 +572,8 @@ def gen_query(r, spec):
         k = r.choice([1, 2, 2, 3])
         return [pick_name(0.03) for _ in range(k)]
     q = dict(s=pick_name(), t=pick_name(), via=pick_list(0.45), avoid=pick_list(0.45))
+    if q['s'] == q['t'] and r.random() < 0.8:
+        q['t'] = r.choice([n for n in names if n != q['s']])
     if r.random() < 0.05:
         q['via'] = []
     if r.random() < 0.15:
@@ -761,13 +768,22 @@ def case_affine_tol(ctx, case):
 
 
 def gen_affine(r):
-    exact = r.random() < 0.8
+    exact = r.random() < 0.7
     while True:
         M = rand_frame(r) if exact else rand_small_matrix(r)
+        if not exact and r.random() < 0.4:
+            M = list(M)
+            i, j = r.sample(range(3), 2)
+            if r.random() < 0.5:
+                M[4 * i:4 * i + 3] = M[4 * j:4 * j + 3]      # equal rows
+            else:
+                M[4 * i:4 * i + 3] = [F(0)] * 3              # zero row
         if not small(M, 10, 10):
             continue
         if exact and not (inv_exact(M) and small(m_inv(M), 12, 12)):
             continue
+        if m_det(M) == 0 and not singular_by_construction(M):
+            continue        # singular by accident: LAPACK may see a tiny pivot instead of zero
         break
     pts = [[fs(F(r.randint(-32, 32), r.choice([1, 2, 4]))) for _ in range(3)] for _ in range(r.choice([1, 2, 4]))]
     return dict(mat=[fs(x) for x in M], pts=pts, exact_inv=exact, singular=m_det(M) == 0)
@@ -985,7 +1001,7 @@ def gen_cases(ctx):
     yield 'sbs', dict(long_, query=dict(s='A', t='B', via='LONGNAME'), world=[['1', '2', '3']])
     yield 'sbs', dict(long_, query=dict(s='A', t='B', via=None), world=[['1', '2', '3']])
 
-    for _ in range(ctx.budget(30, 260) * boost):
+    for _ in range(ctx.budget(80, 400) * boost):
         spec = gen_registry(r, thorough)
         if thorough and r.random() < 0.12 and len(spec['names']) <= 4:
             qs = list(all_queries(spec))
@@ -997,15 +1013,15 @@ def gen_cases(ctx):
             yield 'bridge', dict(spec, query=q, world=gen_world(r, spec['frames']),
                                  dtype=r.choice(['float64', 'float64', 'float64', 'float32', 'list', 'frame'])
                                  if True else 'float64')
-    for _ in range(ctx.budget(120, 1500) * boost):
+    for _ in range(ctx.budget(300, 2500) * boost):
         yield 'seq', gen_seq(r)
-    for _ in range(ctx.budget(80, 800) * boost):
+    for _ in range(ctx.budget(200, 1500) * boost):
         yield 'affine', gen_affine(r)
-    for _ in range(ctx.budget(30, 300)):
+    for _ in range(ctx.budget(40, 300)):
         yield 'affine_tol', dict(seed=r.randrange(10 ** 9), n=r.choice([1, 3, 10]))
-    for _ in range(ctx.budget(60, 600) * boost):
+    for _ in range(ctx.budget(150, 1200) * boost):
         yield 'cache', gen_cache(r)
-    for _ in range(ctx.budget(25, 250) * boost):
+    for _ in range(ctx.budget(60, 400) * boost):
         spec = gen_registry(r)
         names = spec['names']
         for _ in range(4):
@@ -1013,7 +1029,7 @@ def gen_cases(ctx):
             via = [r.choice(names) for _ in range(k)]
             q = dict(s=r.choice(names), t=r.choice(names), via=None if k == 0 else (via[0] if k == 1 and r.random() < 0.6 else via))
             yield 'sbs', dict(spec, query=q, world=gen_world(r, spec['frames']))
-    for _ in range(ctx.budget(6, 60)):
+    for _ in range(ctx.budget(10, 80)):
         yield 'landmarks', dict(kind2=r.choice(['tps', 'mls']), n=r.choice([5, 8, 12, 20]), seed=r.randrange(10 ** 9))
 
 
